@@ -270,6 +270,13 @@ def run_C04(ctx):
     do_stream(ctx, "tok-random", gen.tok_random(rng, 5000 if quick else 100000, sp), P, oracle=oracles.oracle_scanner)
     do_stream(ctx, "tok-spellings", gen.tok_spellings(sp + [l.split("\t")[0] for l in open(os.path.join(core.VERIF, "spec", "spellings.tsv"))]), P,
               oracle=oracles.oracle_scanner)
+    # every Unicode scalar value, alone and in the contexts that select each scanner branch (exhaustive)
+    ctxs = [("", ""), ("x", ""), ("1", ""), ("1e", "2"), ("1.", "5"), ("a ", "q"), ("", "1")]
+    if not quick:
+        ctxs += [("1e-", "2"), ("°", ""), ("_", "x"), ("µ", "m"), ("1.5e3", ""), ("\t", "x"), ("\n", "x"), ("k", "m"), ("", "x")]
+    do_stream(ctx, "charclass", ("charclass u%d %s %s" % (i, hx(a), hx(b)) for i, (a, b) in enumerate(ctxs)), None,
+              exhaustive="every Unicode scalar value (1 112 064) in %d contexts: token kinds, lexeme lengths, columns / bad-character report" % len(ctxs),
+              nontrivial=lambda pl: True)
     nums = [gen.random_number_text(rng) for _ in range(4000 if quick else 100000)] + \
         ["0", "0.1", "0.3", "1e23", "9007199254740993", "1.7976931348623157e308", "1.7976931348623159e308", "4.9e-324", "2.4703282292062327e-324",
          "2.4703282292062328e-324", "2.2250738585072014e-308", "2.2250738585072011e-308", "123456789012345678901234567890", "0.000001e-310"]
@@ -297,6 +304,8 @@ def run_C07(ctx):
 def run_C08(ctx):
     ex = props.builtin_exprs(ctx["rng"], ctx["quick"])
     run_values(ctx, "builtins", ex, with_info=True, oracle=oracles.oracle_builtins)
+    mx = [e for e in props.matrix_exprs(ctx["rng"], ctx["quick"]) if any(n in e for n in ("determinant", "inverse", "transpose", "identity"))]
+    run_values(ctx, "matrix-builtins", mx, with_info=True, oracle=oracles.oracle_builtins)
     oracles.table_builtins(ctx)
 
 
@@ -311,6 +320,17 @@ def hist_streams(ctx, P, monitors, oracle=None):
 def run_C09(ctx):
     P = props.proj_values(with_env=True)
     hist_streams(ctx, P, {"builtins_changed"}, oracle=oracles.oracle_clear)
+    # every name of the initial table (as the property documents it: spec side, not the dump) x the four guarded
+    # statement kinds, directly and through a copy, then the name itself is probed
+    names = [l.strip() for l in open(os.path.join(core.VERIF, "spec", "builtin_names.txt"), encoding="utf-8") if l.strip()]
+    cases = []
+    for k, n in enumerate(names):
+        texts = ["%s = 3\n" % n, "%s(qq) = qq + 100\n" % n, "%s(0) = 1\n" % n, "delete %s\n" % n, "delete %s(qq)\n" % n,
+                 "cp = %s\ncp(qq) = qq\ndelete cp(qq)\ncp = 7\ndelete cp\n" % n, "rr(%s) = 1/(%s - %s)\nrr(1)\n" % (n, n, n),
+                 "ok(%s) = %s\nok(5)\n" % (n, n), "clear\n", "%s\n%s(0)\n2 * %s\n" % (n, n, n)]
+        cases.append(gen.hist_case("b%d" % k, texts))
+    do_stream(ctx, "every-builtin", cases, P, monitors={"builtins_changed"}, oracle=oracles.oracle_clear,
+              exhaustive="every documented built-in name x {assign, define, define literal, delete, delete signature, via copy, shadowing parameter of a failing and of a succeeding call, clear}")
 
 
 def run_C10(ctx):
@@ -326,7 +346,9 @@ def run_C10(ctx):
             # one lexical fault and, for every statement form, a syntax fault in and right after it
             for fault in ("#", "1 +", ")", "x = ", "[1, 2; 3]", "5 as", "delete 3", "f(a+1) = 2", "1e²",
                           "clear 5", "clear x = 2", "delete x 5", "delete f(a) 5", "x = 1 5", "f(a) = a 5", "1 5", "x = 7 y = 8",
-                          "(1", "[1, 2", "|1", "f(1,", "5 m m", "delete", "= 3", "f(a) = ", "x = = 1"):
+                          "(1", "[1, 2", "|1", "f(1,", "5 m m", "delete", "= 3", "f(a) = ", "x = = 1",
+                          "[]", "hh(v) = []", "[;]", "[1,]", "[,1]", "()", "x = ()", "f(,)", "||", "⌈⌉", "x = 1 as", "1 as as m", "delete clear",
+                          "clear = 1", "as", "dot", "1 dot", "cross 1", "x == 1", "2 ** 3", "1 +- * 2", "f(a)(b) = 1", "(x) = 5", "f((n)) = n", "delete (x)"):
                 faulty = lines[:pos] + [fault] + lines[pos:]
                 if n % (11 if quick else 1) == 0 or (pos == 1 and n % 3 == 0):
                     cases.append(gen.hist_case("f%d" % n, ["x = 41\nf(a) = a\n", "\n".join(faulty) + "\n", "x\nf\n"]))
@@ -411,6 +433,9 @@ def run_C14(ctx):
             text = sep.join(lines) + "\n"
             cases.append(gen.hist_case("d%d" % k, [pre, text], tab=rng.choice([0, 1, 4, 8, 255])))
             k += 1
+    for t in props.shape_pair_exprs(4):
+        cases.append(gen.hist_case("d%d" % k, [pre, "1 + 1\n" + t + "\nx + 1\n"]))
+        k += 1
     two = ["(1/0) + unknown", "unknown + (1/0)", "sin(1/0, unknown)", "[1/0, unknown]", "[unknown; 1/0]", "f(unknown)(1/0)", "unknown(1/0)", "(1/0)(unknown)",
            "(5 m + 1) * (1/0)", "-(1/0) + 2.5!", "|unknown| + ⌈i⌉", "f(1/0, unknown, 3)", "sin(unknown) + sin(1, 2)", "(1/0) as m", "unknown as kg"]
     for t in two:
